@@ -89,6 +89,9 @@ pub struct Stats {
     pub blocks_with_reexecution: u64,
     pub error_blocks: u64,
     pub commit_events: u64,
+    pub reserve_blocks: u64,
+    pub reserve_blocks_with_forced_revert: u64,
+    pub policies: BTreeMap<String, u64>,
 }
 
 impl Stats {
@@ -106,6 +109,9 @@ impl Stats {
             blocks_with_reexecution: 0,
             error_blocks: 0,
             commit_events: 0,
+            reserve_blocks: 0,
+            reserve_blocks_with_forced_revert: 0,
+            policies: BTreeMap::new(),
         }
     }
     pub fn json(&self) -> J {
@@ -123,6 +129,9 @@ impl Stats {
             ("controller_steps", J::n(self.steps as usize)),
             ("blocks_where_oracle_errors", J::n(self.error_blocks as usize)),
             ("commit_events_checked", J::n(self.commit_events as usize)),
+            ("reserve_policy_blocks", J::n(self.reserve_blocks as usize)),
+            ("reserve_policy_blocks_differing_from_policy_off", J::n(self.reserve_blocks_with_forced_revert as usize)),
+            ("delegated_safety_policies", m(&self.policies)),
         ])
     }
 }
@@ -151,7 +160,33 @@ pub fn check_block(
     kind: &str,
 ) -> Vec<J> {
     let mut divergences = Vec::new();
-    let (expected, expected_states) = world::oracle_with_states(block);
+    // The in-order oracle is stock revm (plus the independently written delegated-CREATE rule).
+    // It has no balance-reserve policy: for blocks that enable it the reference is grevm's own
+    // sequential path (the property demands that both paths agree), and that reference is checked
+    // by `reserve_checks` against stock revm and the fundability guarantee.
+    let reserve_on = block.safety.reserve_delegated_balance && block.spec.is_enabled_in(revm_primitives::hardfork::SpecId::PRAGUE);
+    let (expected, expected_states) = if reserve_on {
+        let seq = world::run_grevm(block, &RunCfg { workers: 1, min_parallel_txs: 0, force_sequential: true, entry_fallback: false }, None);
+        stats.reserve_blocks += 1;
+        if let Some(msg) = world::reserve_checks(block, &seq.result) {
+            divergences.push(J::obj(vec![
+                ("kind", J::s("oracle")),
+                ("detail", J::s(format!("reserve policy (sequential path): {msg}"))),
+                ("family", J::s(cs.family.clone())),
+                ("case", J::n(cs.case as usize)),
+                ("n_txs", J::n(cs.n_txs)),
+                ("seed", J::n(seed as usize)),
+                ("block", block_json(block)),
+            ]));
+        }
+        let off = { let mut b = block.clone(); b.safety.reserve_delegated_balance = false; world::oracle(&b) };
+        if off.outcomes != seq.result.outcomes {
+            stats.reserve_blocks_with_forced_revert += 1;
+        }
+        (seq.result, Vec::new())
+    } else {
+        world::oracle_with_states(block)
+    };
     if expected.status.is_err() {
         stats.error_blocks += 1;
     }
@@ -159,6 +194,7 @@ pub fn check_block(
         *stats.outcome_kinds.entry(world::outcome_kind(o)).or_default() += 1;
     }
     *stats.families.entry(cs.family.clone()).or_default() += 1;
+    *stats.policies.entry(format!("create_guard={} reserve={}", block.safety.forbid_delegated_create, block.safety.reserve_delegated_balance)).or_default() += 1;
     *stats.specs.entry(format!("{:?}", block.spec)).or_default() += 1;
     let mut sched_rng = case_rng(seed ^ 0x5EED, &cs.family, cs.case);
     let mut any_reexec = false;
@@ -186,7 +222,8 @@ pub fn check_block(
         grevm::verif::set_commit_done_observer(None);
         for ((sched, run), clog) in runs.into_iter().zip(commit_logs.into_iter()) {
             stats.commit_events += clog.len() as u64;
-            if let Some(diff) = world::check_commit_log(&clog, &expected, &expected_states) {
+            let commit_diff = if reserve_on { None } else { world::check_commit_log(&clog, &expected, &expected_states) };
+            if let Some(diff) = commit_diff {
                 divergences.push(J::obj(vec![
                     ("kind", J::s("oracle")),
                     ("detail", J::s(format!("per-commit check: {diff}"))),
